@@ -739,8 +739,7 @@ fn case_filter(r: &mut Rng, out: &mut Out, forced: Option<(E, Vec<Chunk>)>) {
         show: Some(format!("show_filter {} {}", p.coq(), coq_chunks(&cs))),
         oracle: if ok { Oracle::Ok } else { Oracle::Fail },
         msg: if ok { String::new() } else { format!("Filter returned {} but the rows of the input that satisfy the predicate are {}", show_rows(&rows), show_rows(&expected)) },
-        kcoq: if ok { None } else { Some(format!("k_filter_sel {} {}", p.coq(), coq_chunks(&cs))) },
-        kid: if ok { None } else { Some("C11-K1".into()) },
+        // (C11-K1, the only listed class of Filter failures, is fixed by df57ccb: a failure here is a violation)
         nontrivial: unknown || has_sel,
         imp: show_rows(&rows),
         tags,
@@ -1465,8 +1464,6 @@ fn case_eng_stack(r: &mut Rng, g: &Graph, out: &mut Out, forced: Option<(bool, E
         show: Some(format!("show_eng_stacked {} {} {} {}", tabc, coq_ints(&base), p1.coq(), p2.coq())),
         oracle: if ok { Oracle::Ok } else { Oracle::Fail },
         msg: if ok { String::new() } else { format!("returned {:?}; the rows satisfying both predicates are {:?}", sorted(got.clone()), expected) },
-        kcoq: if ok { None } else { Some(format!("k_stacked {} {} {} {}", tabc, coq_ints(&base), p1.coq(), p2.coq())) },
-        kid: if ok { None } else { Some("C11-K1".into()) },
         nontrivial: !a.is_empty() && a.len() < base.len(),
         imp: format!("{:?}", sorted(got)),
         tags: tag(&["eng:stack", &format!("lang:{}", lang.name()), if pattern_form { "stack:pattern-map+where" } else { "stack:where-with-where" }]),
@@ -1764,7 +1761,7 @@ fn big_cases(r: &mut Rng, out: &mut Out, thorough: bool) {
 }
 
 fn corpus(r: &mut Rng, out: &mut Out) {
-    // checked arithmetic (repaired by f0940d4: these used to panic)
+    // checked arithmetic (repaired by 8edf585: these used to panic)
     let mx = i64::MAX;
     let mn = i64::MIN;
     let one = |v: V| vec![vec![Some(v), None, None]];
@@ -1792,7 +1789,7 @@ fn corpus(r: &mut Rng, out: &mut Out) {
     ] {
         case_eval(r, out, Some((e, envs)));
     }
-    // K1: a filter over a chunk that carries a selection vector
+    // former C11-K1 (fixed by df57ccb, these must pass now): a filter over a chunk that carries a selection vector
     let int_row = |i: i64| vec![V::Int(i), V::Int(0)];
     case_filter(r, out, Some((E::Bin(Op::Eq, var0(), lit(2)), vec![Chunk { rows: vec![int_row(1), int_row(2)], sel: Some(vec![0]) }])));
     case_filter(r, out, Some((E::Bin(Op::Ge, var0(), lit(0)), vec![Chunk { rows: vec![int_row(1), int_row(2), int_row(3)], sel: Some(vec![]) }, Chunk { rows: vec![int_row(4)], sel: None }])));
